@@ -14,6 +14,15 @@ BASELINE_OFF = ('cd /repo && env -u ELECTRUMX_VERIF /venv/bin/python -m pytest -
 _IDX_NOTE = ('Trusted: the fake plyvel stand-in (bound to real LevelDB by the conformance run), '
              'the reference indexer; only the default schedule is used here (schedules: C06/C07).')
 CHECKS = {
+    'C06': ('exploration',
+            'stateless schedule exploration with sliced worker jobs: every cancellation instant x after-cancel interleavings up to a preemption bound',
+            'Six scenario shapes; the stop (shutdown_event + task cancellation) is placed at every '
+            'scheduler step at storage/file-operation granularity, i.e. also in the middle of worker '
+            'jobs, and every interleaving of loop callbacks and job slices afterwards is explored with '
+            'at most 2 (quick) / 3 (thorough) non-default choices; the database left behind is reopened '
+            'and compared with the reference index; finished blocks must be included.',
+            'Preemption inside jobs only at storage/file operations; no timers fire after the stop; '
+            'fake plyvel stand-in.', '3/C06'),
     'C14': ('fault_enumeration',
             'exhaustive enumeration of compaction runs x stop/kill points x continuations on really indexed databases',
             'Three really indexed history databases x row size {1,2,3,12500} x batch limit x {the real '
